@@ -93,6 +93,57 @@ def analyse_build(ctx, F, crate, builder_adt, end_adt_path, end_kind, header_che
             per_field.setdefault(next(iter(ks)), []).append((bb, v, shape_ok))
         else:
             other.append((bb, v))
+    # ---- nothing else may touch the vector between the appends and new_boxed (sort, reverse, dedup, retain, swap, truncate...)
+    def root_local(op):
+        """local a reference operand ultimately points into (through moves and reborrows), or None"""
+        pl = op.get("m") or op.get("c")
+        if pl is None:
+            return None
+        L = pl["l"]
+        for _ in range(12):
+            ds = [d for d in A.tb.defs.get(L, []) if not (d[3] and d[3][0] == "*")]
+            if len(ds) > 1 and all(d[0] == "stmt" for d in ds):
+                # copies of one statement (THREAD duplicates straight-line blocks): same right-hand side everywhere
+                rvs = [b.stmts(d[1])[d[2]].get("rv") for d in ds]
+                if all(r == rvs[0] for r in rvs):
+                    ds = ds[:1]
+            if len(ds) != 1 or ds[0][0] != "stmt":
+                return L
+            st = b.stmts(ds[0][1])[ds[0][2]]
+            if st["k"] != "assign":
+                return L
+            rv = st["rv"]
+            if rv["k"] in ("ref", "rawptr"):
+                L = rv["pl"]["l"]
+                if rv["pl"].get("p") and rv["pl"]["p"][0] == "*":
+                    continue
+                return L
+            if rv["k"] == "use":
+                p2 = rv["op"].get("m") or rv["op"].get("c")
+                if p2 is None:
+                    return L
+                L = p2["l"]
+                continue
+            return L
+        return L
+    vec_locals = set()
+    for bb, t in b.calls():
+        p = M.callee_path(t) or ""
+        if p.endswith("Vec::<T, A>::push") or (p.endswith("::extend") and ("Extend<" in p or "alloc::vec::Vec" in p)):
+            vec_locals.add(root_local(t["args"][0]))
+    vec_locals.discard(None)
+    if vec_locals:
+        allowed = ("::push", "::extend", "::as_slice", "Deref>::deref", "::len", "::capacity", "::is_empty")
+        touching = []
+        for bb, t in b.calls():
+            p = M.callee_path(t) or ""
+            if p.endswith(allowed) or "drop_in_place" in p:
+                continue
+            if any(root_local(a) in vec_locals for a in t["args"]):
+                touching.append((bb, p))
+        ctx.check(not touching and len(vec_locals) == 1, "BUILDER", "build:vec-untouched", "all slices are appended to one vector, and between the appends and new_boxed "
+                  "nothing reorders, removes or rewrites them (the vector is only pushed/extended and finally viewed)", A.site(touching[0][0]) if touching else A.site(),
+                  how="every call taking the vector is push / extend / as_slice", why="vectors %s; other uses: %s" % (sorted(vec_locals), [x[1][:80] for x in touching]))
     ctx.check(not other, "BUILDER", "build:foreign-push", "every push in build() is the byte view of one builder slot or of the end tag", A.site(),
               how="%d pushes" % len(pushes), why="unattributed pushes: %s" % [G.show(o[1])[:80] for o in other])
     # coverage: set of pushed fields == set of tag-carrying fields, one site each
